@@ -203,10 +203,11 @@ class C14:
         s.add("init", 1, 0, 0)
         for line in case.get("pre", []):
             s.add(*line)
-        cmd, path, idx, val, kind = case["call"]
+        cmd, path, idx, val, kind = case["call"][:5]
+        form = case["call"][5:]          # ["w"]: the un-indexed convenience wrapper (cfg_setint ...), ["n"]: the indexed form
         ib = s.add("get" + kind, 1, hx(path), idx)
         szb = s.add("size", 1, hx(path))
-        ic = s.add(cmd, 1, hx(path), idx, hx(val))
+        ic = s.add(cmd, 1, hx(path), idx, hx(val), *form)
         ia = s.add("get" + kind, 1, hx(path), idx)
         s.add("free", 1)
         r = get_ex("asan").run(s)
@@ -265,7 +266,15 @@ class C14:
             out.append({"kind": "setter", "pre": pre, "call": ["setint", path, 0, "666", "int"], "expect": "veto"})
             out.append({"kind": "setter", "pre": pre, "call": ["setint", path, 0, "777", "int"], "expect": 778})
             out.append({"kind": "setter", "pre": pre, "call": ["setint", path, 0, "5", "int"], "expect": 5})
-        return out
+        # every index-0 case through both forms of the setter: cfg_setint(...) and cfg_setnint(..., 0)
+        both = []
+        for c in out:
+            if c["call"][2] == 0:
+                both.append(dict(c, call=c["call"] + ["w"]))
+                both.append(dict(c, call=c["call"] + ["n"]))
+            else:
+                both.append(c)
+        return both
 
     def strategy(self, tier):
         @st.composite
